@@ -24,5 +24,10 @@ pub proof fn lemma_ceil(l: int, c: int)
     }
     assert(q <= l) by (nonlinear_arith) requires l == c * q + m, c >= 1, q >= 0, m >= 0;
     assert(m > 0 ==> q + 1 <= l) by (nonlinear_arith) requires l == c * q + m, c >= 1, q >= 0, m >= 0;
+    // last clause, spelled out (it was proved only incidentally before and flipped when an unrelated axiom was added to the file)
+    if l > 0 && m == 0 {
+        assert(q >= 1) by (nonlinear_arith) requires l == c * q + m, m == 0, l > 0, c >= 1, q >= 0;
+    }
+    assert(ceil_div(l, c) == (if m == 0 { q } else { q + 1 }));
 }
 } // verus!
